@@ -1,5 +1,6 @@
 import VlsModel.Prim.U64
 import VlsModel.Gen.Onchain
+import VlsModel.Model.Wallet
 /-
 Model of the sweep and second-level HTLC signing requests (property C09):
 
@@ -53,6 +54,14 @@ structure SweepTx where
   seq0 : Nat                 -- tx.input[0].sequence (meaningful when nInputs > 0)
   outs : List SweepOut
 deriving DecidableEq, Repr
+
+/-- the two facts `validate_sweep` obtains from the wallet for one output, computed by the model of
+    `impl Wallet for Node` (Model/Wallet.lean) from the script, the request's wallet path, the key-derivation style
+    and the allowlist -/
+def outOfScript (style : Wallet.Style) (allow : List Wallet.Allowable) (path : List Nat) (s : Wallet.Script) : SweepOut :=
+  { canSpend := Wallet.canSpend style path s,
+    allow := match Wallet.allowlistContains allow s path with
+      | .yes => .yes | .no => .no | .panic => .panic }
 
 /-- `validate_sweep`'s loop over **all** outputs; `destFilter` = the policy filter keeps
     policy-sweep-destination-allowlisted an error -/
